@@ -30,8 +30,10 @@ def call(dutils, se, P, rain, maxgap):
         return dutils.var2h(se, nbsec_per_period=P * TICK, maxgapsec=maxgap * TICK, rainfall=rain)
 
 
+# time zones incl. offsets that are not whole hours (the result is a function of the wall-clock time stamps)
 VARIANTS = [("ns", None), ("us", None), ("ms", None), ("s", None), ("ns", "UTC"), ("us", "Australia/Brisbane"),
-            ("s", "Etc/GMT+5"), ("ms", "UTC")]
+            ("s", "Etc/GMT+5"), ("ms", "UTC"), ("ns", "Australia/Darwin"), ("us", "Asia/Kolkata"), ("s", "Asia/Kathmandu"),
+            ("ns", "Australia/Adelaide")]
 
 
 def first_tick(out, day_shift=0):
@@ -106,6 +108,21 @@ def code_to_spec(ctx, dutils, ncases):
             elif r < 0.14:
                 vs[k] = -1
         P = int(rng.choice([3, 6]))
+        if t % 6 == 1:
+            # already regular series: spacing exactly one period (or one tick short of it once), first stamp on or off the hour
+            nobs = int(rng.integers(4, 13))
+            t0 = int(rng.choice([0, 6, 0, 2]))
+            steps = [P] * (nobs - 1)
+            if rng.random() < 0.3:
+                steps[int(rng.integers(0, nobs - 1))] = P - 1
+            ts = [t0] + [int(v) for v in t0 + np.cumsum(steps)]
+            vs = [int(v) for v in rng.integers(0, 9, size=nobs)]
+            for k in range(nobs):
+                r = rng.random()
+                if r < 0.1:
+                    vs[k] = NAN
+                elif r < 0.3:
+                    vs[k] = -1
         rain = bool(rng.random() < 0.5)
         maxgap = int(rng.choice([6, 12, 48, 720]))
         if (ts[-1] - ts[0]) // P < 2:
